@@ -13,6 +13,7 @@ import (
 	"fmt"
 	"os"
 	"path/filepath"
+	"strings"
 
 	hg "github.com/mosaicnetworks/babble/src/hashgraph"
 	"github.com/mosaicnetworks/babble/src/peers"
@@ -92,6 +93,20 @@ func (t *TapStore) SetPeerSet(r int, ps *peers.PeerSet) error {
 	return nil
 }
 
+// respell: the same peer-set with every second public key written in lower case
+// (a spelling peers.json may use; the store indexes by the canonical form)
+func respell(ps *peers.PeerSet) *peers.PeerSet {
+	list := []*peers.Peer{}
+	for i, p := range ps.Peers {
+		if i%2 == 1 {
+			list = append(list, peers.NewPeer(strings.ToLower(p.PubKeyHex), p.NetAddr, p.Moniker))
+		} else {
+			list = append(list, p)
+		}
+	}
+	return peers.NewPeerSet(list)
+}
+
 func apply(st hg.Store, op tapOp) error {
 	switch op.kind {
 	case "ev":
@@ -103,7 +118,7 @@ func apply(st hg.Store, op tapOp) error {
 	case "rnd":
 		return st.SetRound(op.r, op.rnd)
 	case "ps":
-		return st.SetPeerSet(op.r, op.ps)
+		return st.SetPeerSet(op.r, respell(op.ps))
 	}
 	return nil
 }
